@@ -195,7 +195,7 @@ def build_measure(b, itg, ufl):
         sid = tuple(sid)
     md = decode_md(itg.get("md")) or None
     name = {"dx": "dx", "ds": "ds", "dS": "dS"}[itg["itype"]]
-    return ufl.Measure(name, domain=b.mesh, subdomain_id=sid, metadata=md)
+    return ufl.Measure(name, domain=b.meshes[int(itg.get("mesh", 0))], subdomain_id=sid, metadata=md)
 
 
 def build_form(b, integrals):
